@@ -250,6 +250,7 @@ var props = map[string]*propCfg{
 			{Kind: "mc", Name: "registry-dev", Module: "Registry", Cfg: "Registry_dev.cfg", Timeout: 5 * time.Minute, TLCWorkers: 1, NoExport: true, Expect: "ImmediateRejects"},
 			{Kind: "exec", Name: "immediate", Mode: "immediate", Timeout: 2 * time.Minute},
 			{Kind: "exec", Name: "retry", Mode: "retry", Timeout: 2 * time.Minute},
+			{Kind: "exec", Name: "qualify", Mode: "qualify", Timeout: 5 * time.Minute},
 			{Kind: "trace", Name: "latency", Module: "AsyncTrace", TraceN: 120, TraceFiles: 7, Timeout: 10 * time.Minute, CallEv: "begin"},
 		},
 		Thorough: []legCfg{
@@ -272,6 +273,7 @@ var props = map[string]*propCfg{
 			{Kind: "mc", Name: "registry-dev", Module: "Registry", Cfg: "Registry_dev.cfg", Timeout: 5 * time.Minute, TLCWorkers: 1, NoExport: true, Expect: "ImmediateRejects"},
 			{Kind: "exec", Name: "immediate", Mode: "immediate", Timeout: 2 * time.Minute},
 			{Kind: "exec", Name: "retry", Mode: "retry", Timeout: 2 * time.Minute},
+			{Kind: "exec", Name: "qualify", Mode: "qualify", Timeout: 5 * time.Minute},
 			{Kind: "trace", Name: "latency", Module: "AsyncTrace", TraceN: 600, TraceFiles: 15, Timeout: 20 * time.Minute, CallEv: "begin"},
 		},
 	},
